@@ -401,6 +401,26 @@ def check_C06(ctx):
                 c1 = period_case(r, f, cmd, tz=tz, g_begin=kwd); c1["f_today"] = ts
                 c2 = period_case(r, fdel, cmd, tz=tz); c2["f_today"] = ts
                 cases += [c1, c2]; pairs.append((len(cases) - 2, len(cases) - 1, "keyword %s today=%s %s tz=%s" % (kwd, ts, cmd, tz[0])))
+        # keywords across a daylight-saving switch of the process zone (the period is defined on calendar days, not on local wall-clock hours)
+        if ln < ctx.scale(2, 10):
+            for (ty, tm, td) in [(2021, 3, 15), (2021, 3, 14), (2021, 11, 8), (2021, 11, 7), (2021, 3, 29), (2021, 10, 31)]:
+                today = datetime.date(ty, tm, td)
+                dsd = [today - datetime.timedelta(days=k2) for k2 in (0, 1, 2, 6, 7, 8, 29, 30, 31)]
+                r.shuffle(dsd)
+                ditems = window_log(r, [(d.year, d.month, d.day) for d in dsd])
+                for it_i, it in enumerate(ditems):
+                    if it[0] == "heading" and (it_i + 1 == len(ditems) or ditems[it_i + 1][0] == "heading"): ditems.insert(it_i + 1, ("entry", "bread", "1"))
+                fd = {"food.yaml": book, "log.yaml": gen.render_items(r, ditems, crlf=False, final_newline=True)}
+                for kwd, off in [("yesterday", -1), ("last7", -7), ("last30", -30)]:
+                    for side in ("g_begin", "g_end"):
+                        for tz in [("America/New_York", -18000), ("Europe/Berlin", 3600), ("Australia/Lord_Howe", 37800)]:
+                            bd = today + datetime.timedelta(days=off)
+                            keep = (lambda i, bd=bd: dsd[i] >= bd) if side == "g_begin" else (lambda i, bd=bd: dsd[i] <= bd)
+                            fdel = {"food.yaml": book, "log.yaml": gen.render_items(r, delete_days(ditems, keep), crlf=False, final_newline=True)}
+                            cmd = r.choice(["reg", "csv-log", "bal", "print"])
+                            c1 = period_case(r, fd, cmd, tz=tz, **{side: kwd}); c1["f_today"] = today.strftime("%Y/%m/%d")
+                            c2 = period_case(r, fdel, cmd, tz=tz); c2["f_today"] = today.strftime("%Y/%m/%d")
+                            cases += [c1, c2]; pairs.append((len(cases) - 2, len(cases) - 1, "keyword %s as %s, today=%s %s tz=%s (daylight-saving switch nearby)" % (kwd, side, today, cmd, tz[0])))
         for d in win:
             for tz in tzs:
                 for arg, off in [(d.strftime("%Y/%m/%d"), 0), ("today", 0), ("yesterday", -1)]:
@@ -617,6 +637,14 @@ def check_C08(ctx):
            dict(base, cmd="reg", f_fmt="Jan 2 2006"), dict(base, cmd="reg", f_fmt=""), dict(base, cmd="reg", g_begin="next tuesday"), dict(base, cmd="reg", g_begin="garbage!!"),
            dict(base, cmd="reg", f_depth=10000000), dict(base, cmd="csv-db-resolved", f_depth=10000000), dict(base, cmd="bal", f_depth=0), dict(base, cmd="totals", f_depth=-5),
            dict(base, cmd="summary", arg=b"not a date"), dict(base, cmd="stats", f_fmt="02.01.2006"), dict(base, cmd="reg", no_database=True), dict(base, cmd="stats", no_database=True)]
+    # cycles of every small length (direct, indirect, reached through a chain) under a huge limit given by flag, environment or configuration file
+    for cyc in (1, 2, 3, 5):
+        for lead in (0, 2):
+            bookc = gen.render_items(r, gen.cycle_book(r, lead, cyc, extra_user=True))
+            fc = {"food.yaml": bookc, "log.yaml": b"2021/01/21:\n  c0: 1\n  u: 2\n"}
+            odd.append(dict(files=fc, cmd=r.choice(["reg", "bal", "totals"]), f_today="2021/02/01", f_depth=10000000, **NOCOLOR))
+            odd.append(dict(files=fc, cmd="csv-db-resolved", e_depth=10000000, **NOCOLOR))
+            odd.append(dict(files=dict(fc, **{"c.cfg": {"cfg": {"depth": 5000000}}}), cmd="element-total", arg=b"salt", f_config="c.cfg", **NOCOLOR))
     for c in odd:
         if c.get("f_fmt") == "02.01.2006": c["f_today"] = "01.02.2021"
         elif c.get("f_fmt") is not None: c.pop("f_today", None)
@@ -663,6 +691,8 @@ def check_C12(ctx):
         ctx.nontriv(l1 + b"|" + l2); ctx.tally("blocks", nb)
         if k < 1: ctx.sample(dict(L1=l1, L2=l2))
         for cmd, kw in (PERDAY + PERIOD if ctx.tier == "thorough" else r.sample(PERDAY, 3) + r.sample(PERIOD, 2)):
+            if cmd in ("reg", "bal", "csv-log", "print", "totals", "quantity") and r.random() < 0.4:
+                dd = r.choice(days); kw = dict(kw, **{r.choice(["g_end", "g_begin"]): "%04d/%02d/%02d" % dd})
             tri = []
             for lg in (l1, l2, l1 + l2):
                 cases.append(dict(files={"food.yaml": book, "log.yaml": lg}, cmd=cmd, **kw, **NOCOLOR)); tri.append(len(cases) - 1)
@@ -672,7 +702,8 @@ def check_C12(ctx):
         x, y, z = ires[a], ires[b2], ires[ab]
         if not (x["status"] == y["status"] == z["status"] == "ok"): continue
         rep = dict(kind="cli", case=cases[ab], impl=z, L1_case=cases[a], L1_impl=x, L2_case=cases[b2], L2_impl=y)
-        if (cmd, kw) in PERDAY or any(cmd == c and kw == k2 for c, k2 in PERDAY):
+        kw0 = {k2: v for k2, v in kw.items() if k2 not in ("g_end", "g_begin")}
+        if any(cmd == c and kw0 == k2 for c, k2 in PERDAY):
             if x["stdout"] + y["stdout"] != z["stdout"]:
                 ctx.violation("C12:per-day-report-not-concatenation:" + cmd, "%s %r: report of L1++L2 is not report(L1) ++ report(L2): %r / %r" % ((cmd, kw) + first_diff(x["stdout"] + y["stdout"], z["stdout"])), rep)
         else:
@@ -781,7 +812,12 @@ def check_C14(ctx):
         foods = [gen.s_name(r, r.choice([0, 0.3, 0.6])) for _ in range(r.randint(1, 5))]
         items = gen.decorate(r, gen.log(r, foods, layout=layout, envelope=r.random() < 0.3, notes=0.3), 0.2)
         logb = gen.render_items(r, items)
-        c = dict(files={"log.yaml": logb}, cmd="print", f_fmt=layout, **NOCOLOR)
+        src = r.choice(["flag", "flag", "env", "cfg"])
+        c = dict(files={"log.yaml": logb}, cmd="print", **NOCOLOR)
+        if src == "flag": c["f_fmt"] = layout
+        elif src == "env": c["e_fmt"] = layout
+        else: c["files"]["my.cfg"] = {"cfg": {"fmt": layout}}; c["f_config"] = "my.cfg"
+        ctx.tally("date_format_from", src)
         if r.random() < 0.3:
             ds = [it[1] for it in items if it[0] == "heading"]
             if ds: c["g_begin"] = r.choice(ds)
@@ -794,8 +830,9 @@ def check_C14(ctx):
     for j, (c, i) in enumerate(zip(cases, ires)):
         if i["status"] != "ok": continue
         base = {k2: v for k2, v in c.items() if k2 not in ("files", "g_begin")}
-        second.append(dict(base, files={"log.yaml": i["stdout"]})); idx.append(j)
-        second.append(dict(base, files={"log.yaml": i["stdout"]}, cmd="csv-log")); idx.append(j)
+        f2 = dict(c["files"], **{"log.yaml": i["stdout"]})
+        second.append(dict(base, files=f2)); idx.append(j)
+        second.append(dict(base, files=f2, cmd="csv-log")); idx.append(j)
         second.append(dict({k2: v for k2, v in c.items() if k2 != "files"}, files=c["files"], cmd="csv-log")); idx.append(j)
     ires2 = cli_diff(ctx, second, tag="C14:round2:")
     for t in range(0, len(second), 3):
@@ -856,6 +893,16 @@ def check_C15(ctx):
         groups.append(g)
         ctx.nontriv(f["food.yaml"] + f["log.yaml"])
         if k < 1: ctx.sample(dict(book=f["food.yaml"], log=f["log.yaml"]))
+    # amounts that print as 0.00 / -0.00 but are not zero keep the colour of their sign; names that are path-prefixes of others in the balance
+    for k in range(ctx.scale(12, 300)):
+        tiny = [r.choice(["0.004", "-0.003", "0.0049", "-0.0049", "0.001", "-0.0001", "0.005", "-0.005", "0", "-0", "1e-9"]) for _ in range(4)]
+        f = {"food.yaml": ("mix:\n  kcal: %s\n  fat: %s\n" % (tiny[0], tiny[1])).encode(),
+             "log.yaml": ("2021/01/01:\n  mix: 1\n  trace: %s\n  other: %s\n  coffee: 1\n  coffee/cup: 2\n  tea/green: 1\n  tea: 0.5\n" % (tiny[2], tiny[3])).encode()}
+        for color in (True, False):
+            for extra in (dict(cmd="reg"), dict(cmd="reg", template="left-aligned"), dict(cmd="reg", old=True), dict(cmd="summary", arg=b"2021/01/01"),
+                          dict(cmd="bal"), dict(cmd="bal", collapse=True), dict(cmd="bal", collapse_last=True)):
+                c = dict(files=f, **extra); c.update({} if color else NOCOLOR); cases.append(c)
+        ctx.nontriv(f["log.yaml"] + f["food.yaml"])
     # shortening on its own: names longer than the columns
     for k in range(ctx.scale(40, 1000)):
         long1 = gen.name(r, 0.5) + gen.word(r, 25, 45) + r.choice(["é", "ж", "x"]) * r.randint(0, 4)
@@ -974,8 +1021,9 @@ def check_C16(ctx):
                         if has["flag"]: c["f_fmt"] = lay["flag"]
                         if has["env"]: c["e_fmt"] = lay["env"]
                         if has["cfg"]: cfg["fmt"] = lay["cfg"]
-                        c["cmd"] = "csv-log"
-                        chk = lambda i: (i["status"] == "ok" and b"2021-03-04" in i["stdout"], "the log dated in the effective layout is readable")
+                        c["cmd"] = r.choice(["csv-log", "print", "print"])
+                        if c["cmd"] == "csv-log": chk = lambda i: (i["status"] == "ok" and b"2021-03-04" in i["stdout"], "the log dated in the effective layout is readable")
+                        else: chk = lambda i, eff=eff: (i["status"] == "ok" and gen._fmt(eff, 2021, 3, 4).encode() + b":" in i["stdout"], "print reads and writes the date in the effective layout %s" % eff)
                     elif setting == "depth":
                         dep = dict(flag=3, env=5, cfg=7)
                         eff = dep["flag"] if has["flag"] else dep["env"] if has["env"] else dep["cfg"] if has["cfg"] else 10
@@ -1071,7 +1119,13 @@ def check_C17(ctx):
     # a report larger than bufio's 4096-byte buffer (flushes happen in the middle of the run)
     big = {"food.yaml": small["food.yaml"], "log.yaml": b"".join(b"2021/01/%02d:\n  bread: %d\n  tea: 1\n  item%d/x: 2\n" % (d % 28 + 1, d, d) for d in range(60))}
     cases = []; full_idx = {}
-    def forms(f): return [c for c in all_command_forms(r, f) if not (c["cmd"] == "lint" and c.get("silent"))]
+    bad = b"# notes\n2021/01/21:\n  bread: 2\n  oops\n  tea: x1\n\n2021/01/22:\n  nosep\n  ok: 1\n  worse: 1.2.3\n"
+    def forms(f):
+        fs = [c for c in all_command_forms(r, f) if not (c["cmd"] == "lint" and c.get("silent"))]
+        fb = dict(f, **{"bad.yaml": bad})
+        fs.append(dict(files=fb, cmd="lint", arg=b"bad.yaml", **NOCOLOR))
+        fs.append(dict(files=fb, cmd="lint", arg=b"bad.yaml", silent=True, **NOCOLOR))
+        return fs
     for wi, f in enumerate(worlds + [big]):
         fs = forms(f)
         full = run.run_inproc_cases(ctx.impl, [dict(c, sink=None) for c in fs])
@@ -1101,11 +1155,13 @@ def check_C17(ctx):
     d0 = build.tempfile.mkdtemp(prefix="hv-c17.", dir="/var/tmp")
     try:
         for path, content in small.items(): open(os.path.join(d0, path), "wb").write(content)
+        open(os.path.join(d0, "bad.yaml"), "wb").write(bad)
         for c in forms(small):
             argv, env = run.argv_env(c)
             for sinkname in ("/dev/full", "closed-pipe"):
                 full = subprocess.run([ctx.impl["hr"]] + argv, cwd=d0, env=dict(env, PATH="/usr/bin:/bin", HOME=d0), stdout=subprocess.PIPE, stderr=subprocess.PIPE, timeout=20)
                 if full.returncode != 0 or not full.stdout: continue
+                ctx.tally("real_binary_sink", sinkname)
                 if sinkname == "/dev/full":
                     with open("/dev/full", "wb") as out:
                         p = subprocess.run([ctx.impl["hr"]] + argv, cwd=d0, env=dict(env, PATH="/usr/bin:/bin", HOME=d0), stdout=out, stderr=subprocess.PIPE, timeout=20)
